@@ -467,10 +467,17 @@ def native_replay(h, test_src, env):
     # every harness file ends with:  #[cfg(verif_replay)] include!("/verif/.cache/playback/<mod>.rs");
     # with --cfg verif_replay every harness file of the crate includes its playback file: make them all
     # exist, empty except for the one being replayed
-    for fn in os.listdir(os.path.dirname(h.file)):
-        if fn.endswith(".rs"):
-            with open(os.path.join(pdir, fn), "w") as f:
-                f.write(test_src if fn == modname + ".rs" else "")
+    # (dependencies hosted in other harness directories - boa_string, boa_gc under an engine replay - are compiled
+    # with the same cfg, so the files of every harness directory must exist)
+    kroot = os.path.dirname(os.path.dirname(h.file))
+    for d in sorted(os.listdir(kroot)):
+        if not os.path.isdir(os.path.join(kroot, d)):
+            continue
+        for fn in os.listdir(os.path.join(kroot, d)):
+            if fn.endswith(".rs"):
+                mine = os.path.join(kroot, d) == os.path.dirname(h.file) and fn == modname + ".rs"
+                with open(os.path.join(pdir, fn), "w") as f:
+                    f.write(test_src if mine else "")
     env = dict(env)
     env["RUSTFLAGS"] = (env.get("RUSTFLAGS", "") + " --cfg verif_replay").strip()
     env["CARGO_TARGET_DIR"] = TARGET + "-playback"
